@@ -94,3 +94,54 @@ def outcome_reads_masked(ctx, rep, rule):
                       "a job's outcome decides which running tasks get cancelled", trace(e.st))
     rep.need(rule, n, 2, "outcome reads reaching a sink or a tidy")
     rep.need(rule + ":sinks", len(sinks), 6, "sink events")
+
+
+def feedback_cannot_raise(ctx, rep, rule):
+    """R06.6: the diagnostic code the run calls (skipped by the path analysis because it is
+    effect-free) must not be able to raise on a job's outcome: no first/last subscript of a
+    sequence that may be empty, no explicit raise, in the functions reachable from it."""
+    import ast
+    from ..index import walk_local
+    from ..effects import callees_by_name
+    r = ctx.roles
+    p = ctx.prog
+    an, ip, out = ctx.run()
+    roots = [p.funcs[q] for q in an.skipped if q in p.funcs]
+    rep.need(rule, len(roots), 1, "effect-free helpers called by the run")
+    seen = {}
+    stack = list(roots)
+    while stack:
+        f = stack.pop()
+        if f.qualname in seen:
+            continue
+        seen[f.qualname] = f
+        for n in walk_local(f.node):
+            if isinstance(n, ast.Call):
+                for c in callees_by_name(p, f, n):
+                    if c.cls is not None and (r.jobbase in c.cls.mro or c.cls is r.sched or r.sched in c.cls.mro) \
+                            and not c.is_async and c.name.startswith(('repr', '_short', '_get', '_req', 'stats', '_stats',
+                                                                      'text_label', 'graph_label', '_detect')):
+                        stack.append(c)
+        for g in f.nested.values():
+            stack.append(g)
+    n = 0
+    for q, f in sorted(seen.items()):
+        for node in walk_local(f.node):
+            if isinstance(node, ast.Subscript) and isinstance(node.ctx, ast.Load):
+                idx = node.slice
+                c = idx.value if isinstance(idx, ast.Constant) else (
+                    -idx.operand.value if isinstance(idx, ast.UnaryOp) and isinstance(idx.op, ast.USub)
+                    and isinstance(idx.operand, ast.Constant) else None)
+                if c in (0, -1):
+                    n += 1
+                    rep.fail(rule, "%s:%d subscript in diagnostic code" % (f.module.relpath, node.lineno), q,
+                             "`%s` on the feedback path of the run" % src(node),
+                             "a job whose outcome makes this sequence empty (e.g. an exception with an empty "
+                             "message, with verbose=True) crashes the whole run with IndexError")
+            if isinstance(node, ast.Raise) and node.exc is not None:
+                n += 1
+                rep.fail(rule, "%s:%d raise in diagnostic code" % (f.module.relpath, node.lineno), q,
+                         "`%s` on the feedback path of the run" % src(node),
+                         "reporting a job's outcome can abort the run")
+    rep.ok(rule, "%d diagnostic functions reachable from the run's feedback: no raise, no unguarded first/last "
+                 "subscript" % len(seen))
